@@ -220,13 +220,30 @@ def check(run):
         rej2 = dict((r[0], r[3]) for r in qobs.judge(run, acases, name="QueryCheck-suggest-lev", chunk=1))
         for n, key in enumerate(again):
             levfailed[key] = set(k for k, v in rej2.get(n, {}).items() if v is False)
+    # the recorded ranking finding: recognised when the very same observation is exactly right under the recorded
+    # ranking (by frequency only, the word itself allowed) - a limit that drops a more frequent candidate for a
+    # less frequent one is not that finding
+    rank_again = [(ci, qi, oi) for ci, qi, oi, exp in rejects
+                  if cases[ci]["qs"][qi]["obs"][oi]["kind"] == "suggest"
+                  and set(k for k, v in exp.items() if v is False) <= RANKING]
+    byfreq_failed = {}
+    if rank_again:
+        # (on a one-segment reader the candidates are those of the other recorded finding: plain Levenshtein)
+        acases = [{"idx": cases[ci]["idx"], "qs": [{"q": {"op": "null"}, "obs": [
+            dict(cases[ci]["qs"][qi]["obs"][oi], byfreq=True, lev="1seg" in cases[ci]["qs"][qi]["obs"][oi]["path"])]}]}
+            for ci, qi, oi in rank_again]
+        rej3 = dict((r[0], r[3]) for r in qobs.judge(run, acases, name="QueryCheck-suggest-byfreq", chunk=100))
+        for n, key in enumerate(rank_again):
+            byfreq_failed[key] = set(k for k, v in rej3.get(n, {}).items() if v is False)
     for ci, qi, oi, exp in rejects:
         o = cases[ci]["qs"][qi]["obs"][oi]
         if o["kind"] == "suggest":
             failed = set(k for k, v in exp.items() if v is False)
             # the core facts - every suggestion is an existing term within the distance, and nothing within it is
             # missing from an uncut list - are never excused
-            if failed and failed <= RANKING:
+            if failed and failed <= RANKING and byfreq_failed.get((ci, qi, oi)):
+                extra[(ci, qi, oi)] = "suggest-not-even-by-frequency:" + "+".join(sorted(byfreq_failed[(ci, qi, oi)]))
+            elif failed and failed <= RANKING:
                 extra[(ci, qi, oi)] = "suggest-ranking-and-self"
             elif (ci, qi, oi) in levfailed and levfailed[(ci, qi, oi)] <= RANKING and "1seg" in o["path"]:
                 extra[(ci, qi, oi)] = "fuzzy-single-segment-levenshtein"
